@@ -12,7 +12,7 @@ import (
 func init() {
 	register(&propInfo{
 		ID:          "C07",
-		Explanation: "Path, lock and sibling-agreement analysis of channel streaming: (R07.1) in the forwarding goroutine, between adding a registered channel to the select set and the next select, the response announcing that channel is written through the connection's locked message writer; the forwarder is started once (sync.Once) and is the only receiver of registrations; (R07.2) after a successful registration the dispatcher emits no reply of its own; (R07.3) the client's buffer is a FIFO: push and pop ends of the list are opposite; (R07.4) intake is decoupled from the consumer: the sink's hand-over into the intake channel is a select alternative to the subscription context, and the buffering goroutine never disables or rewrites a select case once the case list is built (it only appends the consumer case when there is something to deliver); (R07.5) value and close callbacks of one sink run under that sink's lock, which is only ever taken while the sink-table lock is held (lock coupling, so frames of one stream cannot overtake each other); (R07.6) the forwarder's two parallel slices (select cases and channel ids) are updated by the same removal scheme; (R07.7) inbound frames are executed in arrival order by one executor with synchronous dispatch of responses, values and closes. (R07.10) a sink leaves the table only together with its close. (R07.11) no value is filtered by a test of its payload bytes. (R07.12) no channel id is arithmetic on a length; (R07.13) the forwarder never receives from one channel directly; (R07.14) an element leaves the client-side buffer only when it was handed to the caller. (R07.15) the forwarder returns because of an error only when it comes from a socket write. (R07.16) the frame executor never blocks on something only a finishing handler releases.",
+		Explanation: "Path, lock and sibling-agreement analysis of channel streaming: (R07.1) in the forwarding goroutine, between adding a registered channel to the select set and the next select, the response announcing that channel is written through the connection's locked message writer; the forwarder is started once (sync.Once) and is the only receiver of registrations; (R07.2) after a successful registration the dispatcher emits no reply of its own; (R07.3) the client's buffer is a FIFO: push and pop ends of the list are opposite; (R07.4) intake is decoupled from the consumer: the sink's hand-over into the intake channel is a select alternative to the subscription context, and the buffering goroutine never disables or rewrites a select case once the case list is built (it only appends the consumer case when there is something to deliver); (R07.5) value and close callbacks of one sink run under that sink's lock, which is only ever taken while the sink-table lock is held (lock coupling, so frames of one stream cannot overtake each other); (R07.6) the forwarder's two parallel slices (select cases and channel ids) are updated by the same removal scheme; (R07.7) inbound frames are executed in arrival order by one executor with synchronous dispatch of responses, values and closes. (R07.10) a sink leaves the table only together with its close. (R07.11) no value is filtered by a test of its payload bytes. (R07.12) no channel id is arithmetic on a length; (R07.13) the forwarder never receives from one channel directly; (R07.14) an element leaves the client-side buffer only when it was handed to the caller. (R07.15) the forwarder returns because of an error only when it comes from a socket write. (R07.16) the frame executor never blocks on something only a finishing handler releases. (R07.17) a possibly nil call context (client functions without a context parameter) is never dereferenced without a test for nil.",
 		NotDecided:  "Element values and the index arithmetic of the swap-remove beyond the two slices using the same scheme; real producer/consumer speeds.",
 		Assumptions: []string{"container/list semantics", "reflect.Select picks among the cases it is given; a zero Chan disables a case"},
 		Run:         runC07,
@@ -129,6 +129,8 @@ func runC07(c *Ctx) {
 	p, r := c.P, c.R
 	c.rule("R07.16", "subscriptions and calls on a connection do not hold each other up: the frame executor never blocks on something only a finishing handler releases")
 	c.executorNeverWaitsForHandlers("R07.16")
+	c.rule("R07.17", "a subscription through a client function without a context parameter works: the stream constructor never dereferences the possibly nil context without a test for nil")
+	c.nilContextRule("R07.17")
 	w := c.ws()
 	c.rule("R07.1", "announce before the channel joins the select set, through the locked writer; forwarder started once; sole receiver of registrations")
 	c.rule("R07.2", "no reply after a successful channel registration")
